@@ -1,6 +1,7 @@
 package mon
 
 import (
+	"errors"
 	"fmt"
 	"math"
 	"sort"
@@ -79,8 +80,12 @@ func (m *qmodel) add(p orb.Point) {
 			return
 		}
 		m.live = append(m.live, it)
-	} else if err != quadtree.ErrPointOutsideOfBounds {
-		m.fail("Add outside the tree bound was not rejected with ErrPointOutsideOfBounds", sv(err))
+	} else if err == nil {
+		// (which error is not the property's business: "rejected with an error". The documented sentinel is counted when it
+		// is the error or is wrapped by it.)
+		m.fail("Add outside the tree bound was not rejected with an error", sv(err))
+	} else if errors.Is(err, quadtree.ErrPointOutsideOfBounds) {
+		m.c.Count("adds_outside_the_bound_rejected_with_ErrPointOutsideOfBounds", 1)
 	}
 }
 
